@@ -252,6 +252,18 @@ def unsupported_filter(line):
     return line
 
 
+PUMP_END_RE = re.compile(r"end:in=(-?\d+):out=(-?\d+):stall=(\d)")
+
+
+def pump_ends(sc, outs):
+    """(held request bytes or -1, held response bytes or -1, stalled) for every `pump` line of a script"""
+    for line, out in zip(sc, outs):
+        if line.startswith("conn") and line.split(" ")[1:2] == ["pump"]:
+            m = PUMP_END_RE.search(out)
+            if m:
+                yield int(m.group(1)), int(m.group(2)), m.group(3) == "1"
+
+
 def calls_of_script(sc, outs):
     """yield (op line, Call) for every data call of a script, in order"""
     for line, out in zip(sc, outs):
@@ -259,7 +271,7 @@ def calls_of_script(sc, outs):
         if len(t) < 2:
             continue
         op = t[1]
-        if op == "play":
+        if op in ("play", "pump"):
             items = t[2].split(",")
             for c in parse_play(out, items):
                 yield line, c
